@@ -55,6 +55,8 @@ def run(tier, seed):
         for k, r in enumerate(rows):
             if not thorough and kind == "L" and ((k // nfs) + seed) % 6:
                 continue
+            if not thorough and cfg == "MC_C17_T3" and ((k // nfs) + seed) % 3:
+                continue                       # the three-level model: every third row in the quick tier
             ri, rl = hier(r["ref"])
             ei, el = hier(r["est"])
             fs = r["fs"] * U
